@@ -6,8 +6,9 @@ Scope (stated bound): every argument list (every order, with repetition) of leng
 tokens built from the suite's variant names: only=/no= (auxiliary and main restrictions, '..' and ',' forms),
 only_vmX=/no_vmX= (known vm, empty value, unknown vm, unknown vm whose name extends a known one), vms= (subsets,
 unknown vm), nets=, only_nets=/no_nets=, K=V overrides (values with commas, repeated keys) and malformed tokens.
-quick: 21 tokens, L=3 (exhaustive, 9724 lists); thorough: L=4 (203 205 lists; the lists of length 4 are taken in a
-seeded order, so that a run stopped by its time budget of 18 min has covered a seeded sample; exhaustive only if done).
+quick: 17 tokens, L=3 (exhaustive, 5220 lists); thorough: 21 tokens, L=4 (204 205 lists; the lists of length 4 are taken
+in a seeded order after all shorter ones, so that a run stopped by its time budget of 18 min has covered everything up
+to length 3 and a seeded sample of length 4; `exhaustive` is true only if everything was done).
 Plus, for all ordered pairs (a, b) of a set of variant names: ["only=a", "only=b"] against ["only=a..b"].
 
 Obligations (one clause each):
@@ -175,11 +176,19 @@ def run_real(args):
         sys.path[:] = saved     # params_from_cmd inserts <suite>/utils on every call
 
 
+_reparse_memo = {}
+
+
 def project_dicts(tests_str, param_dict):
-    """What the loader does with the result: sets.cfg + restriction + runtime parameters (first half of parse_flat_nodes)."""
-    rep = param.Reparsable()
-    rep.parse_next_batch(base_file="sets.cfg", base_str=tests_str, base_dict=param_dict)
-    return list(rep.get_parser(show_empty_cartesian_product=False).get_dicts())
+    """What the loader does with the result: sets.cfg + restriction + runtime parameters (first half of
+    parse_flat_nodes). Returns [(test name, {override key: value in that test})]; memoized per process on its inputs."""
+    memo_key = (tests_str, tuple(sorted(param_dict.items())))
+    if memo_key not in _reparse_memo:
+        rep = param.Reparsable()
+        rep.parse_next_batch(base_file="sets.cfg", base_str=tests_str, base_dict=param_dict)
+        _reparse_memo[memo_key] = [(d["name"], {k: d.get(k) for k in param_dict})
+                                   for d in rep.get_parser(show_empty_cartesian_product=False).get_dicts()]
+    return _reparse_memo[memo_key]
 
 
 def describe(err):
@@ -262,12 +271,12 @@ def check_case(args, deep=False):
     except Exception as e:  # noqa: BLE001
         fail("selection_semantics", "reparse_" + type(e).__name__, describe(e), "%d tests" % len(exp["selection"]))
         return fails, done
-    names = sorted(d["name"] for d in dicts)
+    names = sorted(name for name, _ in dicts)
     if names != sorted(exp["selection"]):
         fail("selection_semantics", "selection_differs", names[:8] + ["... %d tests" % len(names)],
              sorted(exp["selection"])[:8] + ["... %d tests" % len(exp["selection"])])
     for k, v in wants[0].items():
-        bad = [d["name"] for d in dicts if d.get(k) != v and not (k == "nets" and exp["nets_alternatives"])]
+        bad = [name for name, vals in dicts if vals.get(k) != v and not (k == "nets" and exp["nets_alternatives"])]
         if bad:
             fail("overrides", "not_in_every_test", {"key": k, "tests": bad[:3]}, {k: v})
             break
@@ -296,7 +305,7 @@ def check_pair(a, b):
             outs.append(describe(err))
         else:
             try:
-                outs.append(sorted(d["name"] for d in project_dicts(config["tests_str"], config["param_dict"])))
+                outs.append(sorted(name for name, _ in project_dicts(config["tests_str"], config["param_dict"])))
             except Exception as e:  # noqa: BLE001
                 outs.append(describe(e))
     want = sorted(select([("only", a), ("only", b)] + ([] if any(v in MAIN for v in re.split(r"[.,]+", a + "," + b))
@@ -323,9 +332,11 @@ def work(item):
 TOKENS = ["only=tutorial1", "only=minimal", "no=files", "only=tutorial2..names,quicktest.tutorial2.files",
                 "only_vm1=Fedora", "only_vm1=", "no_vm2=Win7", "only_vm4=Fedora", "only_vm12=Fedora",
                 "vms=vm2", "vms=vm1,vmX", "nets=net1,net2", "only_nets=cluster1", "aaa=b,c", "aaa=d", "ccc",
-          "no=minimal", "vms=vm1,vm3", "no_nets=cluster2", "default_only=minimal", "=x"]
+          "no=minimal..tutorial1", "vms=vm1,vm3", "no_nets=cluster2", "default_only=minimal", "=x"]
+THOROUGH_ONLY = ["only=tutorial2..names,quicktest.tutorial2.files", "vms=vm1,vm3", "no_nets=cluster2",
+                 "default_only=minimal"]
 PAIR_NAMES = ["tutorial1", "tutorial2", "files", "names", "quicktest", "nongui", "normal", "minimal",
-              "tutorial_gui", "client_noop", "names,files", "quicktest.tutorial2"]
+              "tutorial_gui", "client_noop", "tutorial2.names", "quicktest.tutorial2"]   # plain operands: no ','
 KINDS = [("malformed", r"^[^=]*$|^="), ("tests", r"^(only|no)="), ("nets", r"^(nets|only_nets|no_nets)="),
          ("vm", r"^(only|no)_"), ("vms", r"^vms="), ("override", r"=")]
 
@@ -353,11 +364,10 @@ def main():
         return 1 if fails else 0
     tier = os.environ.get("VERIF_TIER", "quick")
     rnd = random.Random(int(os.environ.get("VERIF_SEED", "0") or 0))
-    tokens = TOKENS
     if tier == "quick":
-        L, budget, pairs = 3, 85, PAIR_NAMES[:8]
+        tokens, L, budget, pairs = [t for t in TOKENS if t not in THOROUGH_ONLY], 3, 100, PAIR_NAMES[:8]
     else:
-        L, budget, pairs = 4, 1080, PAIR_NAMES
+        tokens, L, budget, pairs = TOKENS, 4, 1080, PAIR_NAMES
     items = [("pair", (a, b), False) for a in pairs for b in pairs]
     n_pairs = len(items)
     for ln in range(L + 1):
@@ -366,6 +376,7 @@ def main():
             rnd.shuffle(seqs)       # if the time budget ends the run early, what was covered is a seeded sample
         items += [("args", seq, tier != "quick" and ln <= 3) for seq in seqs]
     n_full = len(items)
+    run_real([])     # creates ~/avocado_overwrite_*.cfg once, before the workers are forked
     t0, results = time.time(), []
     with multiprocessing.get_context("fork").Pool(max(1, min(12, (os.cpu_count() or 2) - 1))) as pool:
         for res in pool.imap(work, items, chunksize=8):
@@ -396,7 +407,7 @@ def main():
         "rule": "non-trivial = an only/only.. pair, or an argument list with >= 2 arguments of >= 2 different kinds "
                 "(kinds: tests restriction, vm restriction, vms, nets, override, malformed)",
         "bound": f"suite tp_folder; {len(tokens)} tokens; all argument lists of length 0..{L} in every order "
-                 f"({n_full - n_pairs} lists; seeded order for length 4); {n_pairs} only/only.. pairs; "
+                 f"({n_full - n_pairs} lists{'; seeded order for length 4' if L > 3 else ''}); {n_pairs} only/only.. pairs; "
                  f"done {done_n}/{len(items)} in {time.time() - t0:.0f}s",
         "exhaustive": bool(done_n >= n_full),
         "samples": [list(items[i][1]) for i in range(n_pairs + 1, min(done_n, n_full), max(1, n_full // 6))][:6],
